@@ -214,6 +214,17 @@ def run(ck):
         md = single_def(mb, 'molecules')
         ok = isinstance(md, ast.ListComp) and len(md.generators) == 1 and not md.generators[0].ifs and u(md.generators[0].iter) == 'nx.connected_components({})'.format(rgname) and \
             u(md.elt) == "Molecule(system.subgraph(set().union(*({}.nodes[rni]['graph'] for rni in {}))))".format(rgname, u(md.generators[0].target))
+    args_ok = len(pg) == 1 and [u(a) for a in pg[0].value.args] == ['system', 'residue_groups.values()']
+    if not ok and args_ok and len(cl) == 1 and u(cl[0].iter) == 'nx.connected_components({})'.format(rgname) and isinstance(cl[0].target, ast.Name):
+        # another spelling of the union: the loop body is interpreted on a residue graph of three residues, two of them in the component
+        from .. import interp
+        env_ = {rgname + '.nodes': {1: {'graph': ['a', 'b']}, 2: {'graph': ['c']}, 3: {'graph': ['z']}}, cl[0].target.id: {1, 2}, 'molecules': [],
+                'Molecule': lambda g_: ('MOL', g_), 'system.subgraph': lambda n_: frozenset(n_)}
+        try:
+            interp.run_stmts(cl[0].body, env_)
+            ok = env_['molecules'] == [('MOL', frozenset({'a', 'b', 'c'}))]
+        except (interp.Unsupported, interp.Returned, KeyError, TypeError):
+            ok = False
     ck.ob('PROV-partition', mod.loc(mb), ok, 'each returned molecule is the union of the whole residues of one connected component of the residue graph '
           'built from the same residue partition', key='PROV-partition')
     dcalls = calls_with_env(mb, lambda c: call_name(c) == '_bonds_from_distance')
